@@ -942,3 +942,113 @@ Section Step.
       apply in_map_iff in Hin. destruct Hin as (q' & E & Hq''). exists q'. split; assumption.
   Qed.
 End Step.
+
+(* ------------------------------------------------------------------ Part 9: a modification rejected in the parse phase.
+   Nothing is written; the stored slices get the working copies' backing arrays.  When the failing IE is a Create IE
+   (only appends happened) and the stored slices are well formed (len <= cap) the stored rule lists are unchanged *)
+Definition slice_wf {A} (s : slice A) : bool := Nat.leb (len s) (length (back s)).
+
+Lemma app_slice_keeps {A} : forall (l : list A) s n, (n <= len s)%nat -> (n <= length (back s))%nat ->
+  firstn n (back (app_slice s l)) = firstn n (back s).
+Proof.
+  unfold app_slice. induction l as [|x l IH]; intros s n H1 H2; cbn [fold_left]; [reflexivity|].
+  rewrite IH.
+  - unfold s_append. destruct (Nat.ltb (len s) (length (back s))); cbn [back].
+    + apply firstn_set_nth_ge. exact H1.
+    + rewrite firstn_app. replace (n - length (back s))%nat with 0%nat by lia. cbn [firstn]. apply app_nil_r.
+  - unfold s_append. destruct (Nat.ltb (len s) (length (back s))); cbn [len]; lia.
+  - unfold s_append. destruct (Nat.ltb (len s) (length (back s))); cbn [back]; [rewrite set_nth_length; exact H2|rewrite app_length; lia].
+Qed.
+Lemma alias_view_kept {A} (s : slice A) l : slice_wf s = true -> view (Slice (back (app_slice s l)) (len s)) = view s.
+Proof. unfold slice_wf, view. cbn [len back]. intros H. apply Nat.leb_le in H. apply app_slice_keeps; [lia|exact H]. Qed.
+
+Section Early.
+  Variable burst : N -> N -> N -> N.
+
+  Lemma create_p_any : forall is l pf w w' b, mod_create_p is l pf w = (w', b) ->
+    exists ps, w_p w' = app_slice (w_p w) ps /\ w_f w' = w_f w /\ w_q w' = w_q w.
+  Proof.
+    induction is as [|i is IH]; intros l pf w w' b H; cbn [mod_create_p] in H.
+    - inversion H; subst. exists []. repeat split; reflexivity.
+    - destruct (parse_pdr i l pf (w_pool w)) as [pl [p|]].
+      + destruct (IH _ _ _ _ _ H) as (ps & A & B & C). cbn [w_p w_f w_q] in *. exists (p :: ps). repeat split; assumption.
+      + inversion H; subst. exists []. repeat split; reflexivity.
+  Qed.
+  Lemma create_f_any : forall is l x y w w' b, mod_create_f is l x y w = (w', b) ->
+    exists fs, w_f w' = app_slice (w_f w) fs /\ w_p w' = w_p w /\ w_q w' = w_q w.
+  Proof.
+    induction is as [|i is IH]; intros l x y w w' b H; cbn [mod_create_f] in H.
+    - inversion H; subst. exists []. repeat split; reflexivity.
+    - destruct (parse_far i l x y false) as [f|].
+      + destruct (IH _ _ _ _ _ _ H) as (fs & A & B & C). cbn [w_p w_f w_q] in *. exists (f :: fs). repeat split; assumption.
+      + inversion H; subst. exists []. repeat split; reflexivity.
+  Qed.
+  Lemma create_q_any : forall is l w w' b, mod_create_q is l w = (w', b) ->
+    exists qs, w_q w' = app_slice (w_q w) qs /\ w_p w' = w_p w /\ w_f w' = w_f w.
+  Proof.
+    induction is as [|i is IH]; intros l w w' b H; cbn [mod_create_q] in H.
+    - inversion H; subst. exists []. repeat split; reflexivity.
+    - destruct (parse_qer i l) as [q|].
+      + destruct (IH _ _ _ _ H) as (qs & A & B & C). cbn [w_p w_f w_q] in *. exists (q :: qs). repeat split; assumption.
+      + inversion H; subst. exists []. repeat split; reflexivity.
+  Qed.
+
+  (* the handler when a loop stops *)
+  Lemma handle_mod_early a c seid cpf cp cf cq up uf uq rp rf rq s0 w k :
+    find_session seid (c_sessions c) = Some s0 ->
+    mod_loops a c s0 seid cp cf cq up uf uq = (w, S k) ->
+    handle_mod burst a c seid cpf cp cf cq up uf uq rp rf rq =
+    Done (Agent (a_cfg a) (w_pool w) (a_teids a) (a_gauge a) (a_tables a),
+          Conn (c_remote c) (c_pfds c) (replace_session (alias_back s0 (w_p w) (w_f w) (w_q w)) (c_sessions c)) (c_seq c),
+          Out (Some (RMod (new_rseid cpf s0) CAUSE_REJ)) [] [] false).
+  Proof.
+    intros Hf HL. unfold handle_mod, mod_loops in *. cbv zeta. rewrite Hf.
+    destruct (mod_create_p cp seid (c_pfds c) _) as [w1 [|]]; [|inversion HL; reflexivity].
+    destruct (mod_create_f cf seid _ _ w1) as [w2 [|]]; [|inversion HL; reflexivity].
+    destruct (mod_create_q cq seid w2) as [w3 [|]]; [|inversion HL; reflexivity].
+    destruct (mod_update_p up seid (c_pfds c) w3) as [w4 [|]]; [|inversion HL; reflexivity].
+    destruct (mod_update_f uf seid _ _ w4) as [w5 [|]]; [|inversion HL; reflexivity].
+    destruct (mod_update_q uq seid w5) as [w6 [|]]; [discriminate|inversion HL; reflexivity].
+  Qed.
+
+  Definition early_ok (s0 : session) (k : nat) : bool :=
+    Nat.leb k 3 && slice_wf (s_pdrs s0) && slice_wf (s_fars s0) && slice_wf (s_qers s0).
+
+  (* the stopped loop was a Create loop: the working slices are the stored ones with rules appended *)
+  Lemma early_create_shape a c s0 seid cp cf cq up uf uq w k :
+    mod_loops a c s0 seid cp cf cq up uf uq = (w, S k) -> (S k <= 3)%nat ->
+    exists ps fs qs, w_p w = app_slice (s_pdrs s0) ps /\ w_f w = app_slice (s_fars s0) fs /\ w_q w = app_slice (s_qers s0) qs.
+  Proof.
+    unfold mod_loops. intros HL Hk.
+    destruct (mod_create_p cp seid (c_pfds c) _) as [w1 b1] eqn:E1.
+    destruct (create_p_any _ _ _ _ _ _ E1) as (ps & A1 & A2 & A3). cbn [w_p w_f w_q] in *.
+    destruct b1; [|inversion HL; subst; exists ps, [], []; repeat split; assumption || (unfold app_slice; cbn [fold_left]; assumption)].
+    destruct (mod_create_f cf seid _ _ w1) as [w2 b2] eqn:E2.
+    destruct (create_f_any _ _ _ _ _ _ _ E2) as (fs & B1 & B2 & B3).
+    destruct b2; [|inversion HL; subst; exists ps, fs, []; repeat split; unfold app_slice in *; cbn [fold_left]; congruence].
+    destruct (mod_create_q cq seid w2) as [w3 b3] eqn:E3.
+    destruct (create_q_any _ _ _ _ _ E3) as (qs & C1 & C2 & C3).
+    destruct b3; [|inversion HL; subst; exists ps, fs, qs; repeat split; congruence].
+    destruct (mod_update_p up seid (c_pfds c) w3) as [w4 [|]]; [|inversion HL; lia].
+    destruct (mod_update_f uf seid _ _ w4) as [w5 [|]]; [|inversion HL; lia].
+    destruct (mod_update_q uq seid w5) as [w6 [|]]; [discriminate|inversion HL; lia].
+  Qed.
+
+  Lemma mod_early_image a c seid cpf cp cf cq up uf uq rp rf rq s0 w k a' c' o :
+    find_session seid (c_sessions c) = Some s0 ->
+    mod_loops a c s0 seid cp cf cq up uf uq = (w, S k) ->
+    early_ok s0 (S k) = true ->
+    handle_mod burst a c seid cpf cp cf cq up uf uq rp rf rq = Done (a', c', o) ->
+    exists s', c_sessions c' = replace_session s' (c_sessions c) /\ s_lseid s' = s_lseid s0 /\
+      a_tables a' = a_tables a /\ o_cmds o = [] /\ o_reply o = Some (RMod (new_rseid cpf s0) CAUSE_REJ) /\
+      session_cmds burst s' = session_cmds burst s0.
+  Proof.
+    intros Hf HL HG H. rewrite (handle_mod_early _ _ _ cpf _ _ _ _ _ _ rp rf rq _ _ _ Hf HL) in H. inversion H; subst a' c' o; clear H.
+    unfold early_ok in HG. apply andb_true_iff in HG. destruct HG as [HG W3]. apply andb_true_iff in HG. destruct HG as [HG W2].
+    apply andb_true_iff in HG. destruct HG as [Hk W1]. apply Nat.leb_le in Hk.
+    destruct (early_create_shape _ _ _ _ _ _ _ _ _ _ _ _ HL Hk) as (ps & fs & qs & A & B & C).
+    eexists. split; [reflexivity|]. split; [reflexivity|]. split; [reflexivity|]. split; [reflexivity|]. split; [reflexivity|].
+    unfold session_cmds, alias_back. cbn [s_pdrs s_fars s_qers]. rewrite A, B, C.
+    rewrite !alias_view_kept by assumption. reflexivity.
+  Qed.
+End Early.
